@@ -6,7 +6,7 @@ pub struct XRule
 {
     pub tg : Vec<String>,      // sorted
     pub src : Vec<String>,     // sorted
-    pub kind : String,         // fn | sel | copy | const | fail
+    pub kind : String,         // fn | sel | copy | const | empty | fail
     pub id : String,
     pub omit : usize,          // 0 = none, k = target k is not written
     pub mask : Vec<usize>,     // targets whose content also depends on the undeclared input
@@ -166,6 +166,7 @@ pub fn out_content(cmd : &Cmd, i : usize, seen : &Vec<String>, env : &str) -> St
     {
         "copy" => seen[0].clone(),
         "const" => format!("K({})", cmd.id),
+        "empty" => "".to_string(),
         "sel" => format!("F({},{})[{}]", cmd.id, i, seen[(i - 1) % seen.len()]),
         _ => format!("F({},{})[{}]", cmd.id, i, seen.join("|")),
     };
